@@ -30,7 +30,7 @@ REQUIRED = {"outputs_checked": 150, "atoms_checked": 3000, "box_from_density": 2
 
 
 def plan(tier, seed):
-    n = 260 if tier == "quick" else 6000
+    n = 520 if tier == "quick" else 6000
     return [["opt", i] for i in range(n)] + [["faults", i] for i in range(n // 2)]
 
 
